@@ -118,6 +118,11 @@ func Respell(s string) *rapid.Generator[Respelled] {
 				out = norm.NFC.String(out)
 			}
 		}
+		if out == s && s != "" {
+			// the chosen method is the identity on this string: substitute instead
+			out = respellSpaces(t, inverseSubst(t, want, rapid.IntRange(1, 6).Draw(t, "k2")))
+			method += "->inverse"
+		}
 		r := Respelled{S: out, Method: method}
 		if norm.NFKD.String(out) != want {
 			r.S, r.Unsound, r.Method = s, 1, method+"(discarded)"
